@@ -348,16 +348,13 @@ def cvc5_text(txt: str) -> str:
 def run_solver(solver: str, path: str, timeout: float):
     cmd = list(SOLVERS[solver])
     if solver.startswith("z3"):
-        cmd += [f"-T:{int(timeout)}", path]
+        if timeout != int(timeout):
+            # a fractional budget (the vacuity probe): soft limit in ms, hard limit rounded up (`-T:0` would mean no limit)
+            cmd += [f"-t:{max(1, int(timeout * 1000))}", f"-T:{int(timeout) + 1}", path]
+        else:
+            cmd += [f"-T:{max(1, int(timeout))}", path]
     else:
-        cmd += [f"--tlimit={int(timeout * 1000)}", path]
-        # cvc5 wants an explicit logic
-        with open(path) as f:
-            txt = f.read()
-        p2 = path[:-5] + ".cvc5.smt2"
-        with open(p2, "w") as f:
-            f.write(cvc5_text(txt))
-        cmd[-1] = p2
+        cmd += [f"--tlimit={int(timeout * 1000)}", _cvc5_file(path, ".cvc5.smt2")]
     t0 = time.time()
     try:
         r = subprocess.run(cmd, capture_output=True, text=True, timeout=timeout + 10)
@@ -372,6 +369,29 @@ def run_solver(solver: str, path: str, timeout: float):
     if "timeout" in out:
         return "timeout", out, dt
     return "error", (out + r.stderr)[:2000], dt
+
+
+_cvc5_done: dict = {}  # path of the cvc5 variant -> (mtime_ns, size) of the source it was made from
+
+
+def _cvc5_file(path: str, suffix: str) -> str:
+    """the cvc5 variant of an SMT-LIB file (explicit logic, quoted keywords): written once per source file version, not once
+    per solver round"""
+    p2 = path[:-5] + suffix
+    try:
+        stt = os.stat(path)
+        sig = (stt.st_mtime_ns, stt.st_size)
+    except OSError:
+        sig = None
+    if sig is not None and _cvc5_done.get(p2) == sig and os.path.exists(p2):
+        return p2
+    with open(path) as f:
+        txt = f.read()
+    with open(p2, "w") as f:
+        f.write(cvc5_text(txt))
+    if sig is not None:
+        _cvc5_done[p2] = sig
+    return p2
 
 
 def needs_confirmation(path: str) -> bool:
@@ -406,7 +426,7 @@ def hyps_only_text(txt: str):
     return txt[:i] + "\n" + txt[end:]
 
 
-def vacuity_probe(path: str, prover: str, timeout: float):
+def vacuity_probe(path: str, prover: str, timeout: float, proof_time: float | None = None):
     """Run `prover` (and cvc5 when it says unsat) on the hypotheses of the file alone.
     -> (answer of the prover, answer of cvc5 or None).  Results are cached per hypotheses text (all the postconditions of one
     path share their hypotheses)."""
@@ -426,20 +446,35 @@ def vacuity_probe(path: str, prover: str, timeout: float):
     if hy is None:
         return None, None
     key = (hashlib.md5(hy.encode()).hexdigest(), prover)
-    with _probe_lock:
-        if key in _probe_cache:
-            return _probe_cache[key]
-    hp = path[:-5] + ".hyps.smt2"
-    with open(hp, "w") as f:
-        f.write(hy)
-    if path in _no_cvc5:
-        _no_cvc5.add(hp)
-    a1 = run_solver(prover, hp, timeout)[0]
-    a2 = None
-    if a1 == "unsat" and hp not in _no_cvc5:
-        a2 = run_solver("cvc5", hp, max(timeout, 5.0))[0]
-    with _probe_lock:
-        _probe_cache[key] = (a1, a2)
+    # Budget: a prover that finds the hypotheses contradictory does so by the derivation that "proved" the goal, i.e. within
+    # about the time of the proof (measured on C05 quick: the 9 `unsat` answers among 465 probes came within 0.07 s; 328 probes
+    # ran into the 2 s limit on satisfiable hypotheses and made up half of the wall time of the property).  So the probe gets
+    # max(0.5 s, 4 x proof time), at most the tier budget.
+    if proof_time is not None and os.environ.get("PYVC_PROBE_FULL", "0") != "1":
+        timeout = min(timeout, max(0.5, round(4 * proof_time, 1)))
+    while True:
+        with _probe_lock:
+            hit = _probe_cache.get(key)
+            if hit is not None and not isinstance(hit, threading.Event) and (hit[0] in ("sat", "unsat") or hit[2] >= timeout):
+                return hit[0], hit[1]  # (an open answer is only reused when it had at least this budget)
+            if not isinstance(hit, threading.Event):
+                ev = _probe_cache[key] = threading.Event()  # another obligation with the same hypotheses waits for this run
+                break
+        hit.wait(timeout + 20)
+    a1 = a2 = None
+    try:
+        hp = path[:-5] + ".hyps.smt2"
+        with open(hp, "w") as f:
+            f.write(hy)
+        if path in _no_cvc5:
+            _no_cvc5.add(hp)
+        a1 = run_solver(prover, hp, timeout)[0]
+        if a1 == "unsat" and hp not in _no_cvc5:
+            a2 = run_solver("cvc5", hp, max(timeout, 5.0))[0]
+    finally:
+        with _probe_lock:
+            _probe_cache[key] = (a1, a2, timeout)
+        ev.set()
     return a1, a2
 
 
@@ -460,13 +495,10 @@ def strict_seq(path: str) -> bool:
 def _solver_cmd(solver: str, path: str, timeout: float):
     cmd = list(SOLVERS[solver])
     if solver.startswith("z3"):
+        if timeout != int(timeout):
+            return cmd + [f"-t:{max(1, int(timeout * 1000))}", f"-T:{int(timeout) + 1}", path]
         return cmd + [f"-T:{max(1, int(timeout))}", path]
-    p2 = path[:-5] + ".cvc5c.smt2"
-    with open(path) as f:
-        txt = f.read()
-    with open(p2, "w") as f:
-        f.write(cvc5_text(txt))
-    return cmd + [f"--tlimit={int(timeout * 1000)}", p2]
+    return cmd + [f"--tlimit={int(timeout * 1000)}", _cvc5_file(path, ".cvc5c.smt2")]
 
 
 def confirm(path: str, prover: str, timeout: float, z3_cap: float = 15.0):
@@ -572,7 +604,12 @@ def solve_file(res: Result, timeout=10.0, portfolio=PORTFOLIO, confirm_unsat=Tru
     except OSError:
         pass
     if res.status == "proved" and not res.expect_fail and confirm_unsat and (needs_confirmation(path) or res.risky_pattern or str(res.solver).startswith("z3-4.8")):
-        dis, agree, att = confirm(path, res.solver, 3.0 if timeout <= 10 else 60.0)  # thorough tier: a long budget, so that fewer proofs rest on z3 alone
+        # thorough tier: a long budget, so that fewer proofs rest on z3 alone.  Quick tier: 3 s; the z3 noematch configurations
+        # get 1.5 s unless the verdict depends on their answer (risky file: strict rule below).  Measured on C05 quick at load
+        # 25: every confirmation that came at all came within 0.8 s (and the contradictions seen so far within 0.1 s), while 130
+        # obligations waited the full 3 s for two processes that never answer.
+        quick_cap = 15.0 if (timeout > 10 or res.risky_pattern or os.environ.get("PYVC_CONFIRM_FULL", "0") == "1") else 1.5
+        dis, agree, att = confirm(path, res.solver, 3.0 if timeout <= 10 else 60.0, quick_cap)
         res.confirm_attempts = att
         res.confirmed_by += agree
         res.time_s += max([a["time_s"] for a in att], default=0.0)
@@ -581,7 +618,8 @@ def solve_file(res: Result, timeout=10.0, portfolio=PORTFOLIO, confirm_unsat=Tru
             # VACUITY PROBE: does the prover call the hypotheses ALONE unsatisfiable?  Then the "proof" says nothing about the
             # goal: either the path is genuinely infeasible or it is z3's wrong `unsat` on (Seq String) quantifiers.  It only
             # stands when cvc5 certifies the proof itself or the infeasibility of the hypotheses.
-            a1, a2 = vacuity_probe(path, res.solver, 2.0 if timeout <= 10 else 5.0)
+            pt_ = max([a["time_s"] for a in res.attempts if a["solver"] == res.solver and a["status"] == "unsat"], default=None)
+            a1, a2 = vacuity_probe(path, res.solver, 2.0 if timeout <= 10 else 5.0, pt_)
             res.vacuity_probe = a1
             if a1 == "unsat" and a2 != "unsat" and not any(str(c_).startswith("cvc5") for c_ in res.confirmed_by):
                 res.vacuous = True
@@ -611,6 +649,22 @@ def solve_file(res: Result, timeout=10.0, portfolio=PORTFOLIO, confirm_unsat=Tru
     return res
 
 
+def ordered_portfolio(first, portfolio=PORTFOLIO):
+    """per-contract solver order (`FnContract(portfolio=[...])`): the configurations named come first, every other member of
+    the default portfolio follows in its usual order -- the set of configurations tried is unchanged, only who gets the first
+    3 seconds.  Unknown names are an error of the contract."""
+    if not first:
+        return portfolio
+    bad = [n for n in first if n not in SOLVERS or n in CONFIRM]
+    if bad:
+        raise ValueError(f"portfolio: unknown solver configuration(s) {bad}; known: {list(PORTFOLIO)}")
+    seen = []
+    for n in list(first) + list(portfolio):
+        if n not in seen:
+            seen.append(n)
+    return tuple(seen)
+
+
 def discharge(obs, outdir, timeout=20.0, portfolio=PORTFOLIO, jobs=16, extra_fuel=0, confirm_unsat=None, rounds=None):
     if confirm_unsat is None:
         confirm_unsat = os.environ.get("PYVC_CONFIRM", "1") != "0"
@@ -627,7 +681,7 @@ def discharge(obs, outdir, timeout=20.0, portfolio=PORTFOLIO, jobs=16, extra_fue
     def work(i):
         ob = obs[i]
         res = Result(ob.name, ob.kind, "unknown", smt_file=paths[i], expect_fail=ob.expect_fail, line=ob.line, info=ob.info)
-        return i, solve_file(res, timeout, portfolio, confirm_unsat, rounds)
+        return i, solve_file(res, timeout, portfolio if ob.expect_fail else ordered_portfolio(ob.info.get("portfolio"), portfolio), confirm_unsat, rounds)
 
     with cf.ThreadPoolExecutor(max_workers=jobs) as pool:
         futs = [pool.submit(work, i) for i in range(len(obs)) if results[i] is None]
